@@ -8,6 +8,7 @@ import (
 	"go/token"
 	"go/types"
 	"math/big"
+	"sort"
 	"strings"
 
 	"golang.org/x/tools/go/ssa"
@@ -24,6 +25,7 @@ type Env struct {
 	frame    *Frame
 	point    *ssa.BasicBlock
 	depth    int
+	cells    map[string]V // captured variables of a closure callee (pointers to their cells)
 }
 
 func (e *Env) child() *Env {
@@ -169,6 +171,9 @@ func (e *Env) evalIdent(name string) V {
 	x := e.x
 	if v, ok := e.names[name]; ok {
 		return v
+	}
+	if c, ok := e.cells[name]; ok {
+		return x.loadPlace(e.cur, x.placeOf(c))
 	}
 	switch name {
 	case "true":
@@ -444,6 +449,7 @@ func (e *Env) evalIndex(n *CIndex) V {
 		if isString(v.T) {
 			idx := x.toMathInt(e.eval(n.I))
 			if x.s.strSMT {
+				x.s.strBytes = true
 				return V{T: types.Typ[types.Uint8], S: "(str.to_code (str.at " + v.S + " " + idx + "))"}
 			}
 			return V{T: types.Typ[types.Uint8], S: "(sat " + v.S + " " + idx + ")"}
@@ -898,6 +904,22 @@ func (e *Env) evalCall(n *CCall) V {
 				return V{T: boolT, S: x.sliceEqTerm(e.old, a, e.cur, b)}
 			}
 			return V{T: boolT, S: "(= " + a.S + " " + b.S + ")"}
+		case "ite":
+			// ite(c, a, b): conditional value
+			if len(n.Args) != 3 {
+				e.fail("ite takes three arguments")
+			}
+			c := e.evalBool(n.Args[0])
+			a := e.eval(n.Args[1])
+			b := e.eval(n.Args[2])
+			a, b = e.unify(a, b)
+			r := V{T: a.T, S: ite(c, a.S, b.S), Math: a.Math}
+			if r.T != nil && !r.Math && a.Tup == nil {
+				if _, untyped := r.T.(*types.Basic); !untyped || r.T.(*types.Basic).Info()&types.IsUntyped == 0 {
+					r.S = x.define("ite", x.s.sortOf(r.T), r.S)
+				}
+			}
+			return r
 		case "min", "max":
 			a := e.eval(n.Args[0])
 			for _, arg := range n.Args[1:] {
@@ -1005,6 +1027,35 @@ func (e *Env) callSpec(sf *SpecFunc, args []CExpr) V {
 		}
 		ne.names[p.Name] = v
 	}
+	if sf.Body == nil {
+		// uninterpreted: one SMT function per spec, typed from the declared signature
+		var sorts, terms []string
+		for _, p := range sf.Params {
+			v := ne.names[p.Name]
+			if p.Typ == "int" || p.Typ == "math" {
+				sorts = append(sorts, "Int")
+			} else {
+				sorts = append(sorts, e.x.s.sortOf(v.T))
+			}
+			terms = append(terms, e.x.define("ga", sorts[len(sorts)-1], v.S))
+		}
+		name := "ghost_" + sanitize(sf.Pkg) + "_" + sf.Name
+		if sf.Ret == "int" || sf.Ret == "math" {
+			e.x.s.declareUF(name, "("+strings.Join(sorts, " ")+")", "Int")
+			return V{Math: true, S: "(" + name + " " + strings.Join(terms, " ") + ")"}
+		}
+		rt := ne.resolveType(sf.Ret)
+		e.x.s.declareUF(name, "("+strings.Join(sorts, " ")+")", e.x.s.sortOf(rt))
+		term := "(" + name + " " + strings.Join(terms, " ") + ")"
+		if len(terms) == 0 {
+			term = name
+		}
+		term = e.x.define("gh", e.x.s.sortOf(rt), term)
+		if inv := e.x.s.typeInv(rt, term); inv != "" && inv != "true" {
+			e.x.assume("true", inv)
+		}
+		return V{T: rt, S: term}
+	}
 	return ne.eval(sf.Body)
 }
 
@@ -1032,6 +1083,48 @@ func (e *Env) callGo(fn *ssa.Function, recv *V, args []CExpr) V {
 		}
 		vs = append(vs, v)
 	}
+	// memo: a specification often names the same pure call several times (nested spec
+	// functions); the result is a function of the argument terms and the heap version
+	memoKey := ""
+	{
+		var b strings.Builder
+		b.WriteString(fullFuncKey(fn))
+		for _, v := range vs {
+			b.WriteString("|" + v.S)
+			for _, tv := range v.Tup {
+				b.WriteString("," + tv.S)
+			}
+		}
+		b.WriteString("|" + e.cur.alloc + fmt.Sprint(e.cur.base))
+		hk := make([]string, 0, len(e.cur.heap))
+		for k, v := range e.cur.heap {
+			hk = append(hk, k+"="+v)
+		}
+		sort.Strings(hk)
+		b.WriteString(strings.Join(hk, ";"))
+		memoKey = b.String()
+		if x.goMemo == nil {
+			x.goMemo = map[string]V{}
+		}
+		if v, ok := x.goMemo[memoKey]; ok {
+			return v
+		}
+	}
+	ret := func(v V) V {
+		x.goMemo[memoKey] = v
+		return v
+	}
+	if recv == nil {
+		var rt types.Type = types.NewTuple()
+		if sig.Results().Len() == 1 {
+			rt = sig.Results().At(0).Type()
+		} else if sig.Results().Len() > 1 {
+			rt = sig.Results()
+		}
+		if v, ok := x.abstractCall(e.cur, fn, vs, rt); ok {
+			return ret(v)
+		}
+	}
 	// library functions: the same models the code's own calls use
 	{
 		key := fullFuncKey(fn)
@@ -1051,11 +1144,25 @@ func (e *Env) callGo(fn *ssa.Function, recv *V, args []CExpr) V {
 		v, ok := x.libCall(nil2frame(), stl, key, fn, vs, rt, 0)
 		x.specMode--
 		if ok {
-			return v
+			return ret(v)
 		}
 		if !x.prog.inRepo(pkgPathOfKey(fn, x.prog)) {
 			e.fail("library function %s has no model and cannot be used in a contract", key)
 		}
+	}
+	// a trusted pure function is known only through its contract
+	if c := x.cs.Funcs[fullFuncKey(fn)]; c != nil && c.Trusted && c.Pure && len(c.Requires) == 0 {
+		stl := e.cur.clone()
+		stl.guard = "true"
+		var rt types.Type = types.NewTuple()
+		if sig.Results().Len() == 1 {
+			rt = sig.Results().At(0).Type()
+		} else if sig.Results().Len() > 1 {
+			rt = sig.Results()
+		}
+		x.specMode++
+		defer func() { x.specMode-- }()
+		return ret(x.callContract(nil2frame(), stl, c, fn, nil, vs, rt, 0))
 	}
 	if fn.Blocks == nil {
 		e.fail("function %s has no body", fn.Name())
@@ -1070,9 +1177,9 @@ func (e *Env) callGo(fn *ssa.Function, recv *V, args []CExpr) V {
 	sub := &Frame{fn: fn, params: vs, contract: x.cs.Funcs[fullFuncKey(fn)], depth: 1}
 	rs, _ := x.execFunc(sub, st)
 	if len(rs) == 1 {
-		return rs[0]
+		return ret(rs[0])
 	}
-	return V{Tup: rs}
+	return ret(V{Tup: rs})
 }
 
 func (e *Env) evalPlace(c CExpr) *Place {
@@ -1110,6 +1217,32 @@ func (e *Env) evalPlace(c CExpr) *Place {
 			return &Place{Arr: heapKeySlice(sl.Elem()), Idx: []string{"(s_base " + v.S + ")", "(+ (s_off " + v.S + ") " + idx + ")"}, ElemT: sl.Elem()}
 		}
 	case *CIdent:
+		if c, ok := e.cells[n.Name]; ok {
+			if _, shadowed := e.names[n.Name]; !shadowed {
+				return x.placeOf(c)
+			}
+		}
+		if e.frame != nil && e.frame.fn != nil {
+			if _, shadowed := e.names[n.Name]; !shadowed {
+				// a captured variable or an address-taken local is a cell
+				for i, fv := range e.frame.fn.FreeVars {
+					if fv.Name() == n.Name && i < len(e.frame.bindings) {
+						if _, ok := e.frame.bindings[i].T.Underlying().(*types.Pointer); ok {
+							return x.placeOf(e.frame.bindings[i])
+						}
+					}
+				}
+				for _, b := range e.frame.fn.Blocks {
+					for _, in := range b.Instrs {
+						if a, ok := in.(*ssa.Alloc); ok && a.Comment == n.Name {
+							if av, ok := e.frame.vals[a]; ok {
+								return x.placeOf(av)
+							}
+						}
+					}
+				}
+			}
+		}
 		v := e.eval(n)
 		if v.Pl != nil {
 			return v.Pl
